@@ -7,6 +7,6 @@ CONSTANTS
  MaxP = 7
  MaxMach = 4
  MaxStops = 2
-INVARIANTS Capacity Conservation NeedAccounting ExclusiveAlone PendingOK
+INVARIANTS Capacity Conservation NeedAccounting ExclusiveAlone PendingOK PendingIsOutstanding
 PROPERTIES HealthyOnly
 CHECK_DEADLOCK FALSE
